@@ -27,6 +27,7 @@ METHODS = [
     ("countmin", "CountMinLinear", "n_added", "cms_n_added"), ("countmin", "CountMinLinear", "n_records", "cms_n_records"),
     ("countmin", "CountMinLog16", "add", "log16_add"), ("countmin", "CountMinLog16", "add_ngram", "log16_add_ngram"),
     ("countmin", "CountMinLog8", "add", "log8_add"), ("countmin", "CountMinLog8", "add_ngram", "log8_add_ngram"),
+    ("countmin", "CountMinLog16", "merge", "log16_merge"), ("countmin", "CountMinLog8", "merge", "log8_merge"),
     ("hyperloglog", "HyperLogLog", "add", "hll_add_m"), ("hyperloglog", "HyperLogLog", "add_ngram", "hll_add_ngram_m"), ("hyperloglog", "HyperLogLog", "merge", "hll_merge_m"),
     ("heavyhitters", "HeavyHitters", "add", "hh_add_m"), ("heavyhitters", "HeavyHitters", "add_ngram", "hh_add_ngram_m"), ("heavyhitters", "HeavyHitters", "merge", "hh_merge_m"),
     ("heavyhitters", "HeavyHitters", "__getitem__", "hh_getitem"), ("heavyhitters", "HeavyHitters", "n_added", "hh_n_added"), ("heavyhitters", "HeavyHitters", "n_records", "hh_n_records"),
